@@ -283,23 +283,31 @@ def run(ctx):
                                  "state0": [x.hex() for x in s0], "masses": [p.m for p in sim.particles]})
     # two-body flybys and eccentric orbits through pericentre with coarse and fine steps, both directions:
     # WH-type schemes solve the two-body problem exactly, so the round trip must close to rounding error
-    # (stays clear of the open C03 findings: near-parabolic e<1.05 and sqrt(-beta)|dt|/q > 1400)
+    # (the near-parabolic / overflow region of the Kepler solver, repaired in /repo 0366be3 and 805dfda, is the `edge` family)
     for rep in range(ctx.scale(24, 200)):
         integ, opt = rng.choice([("whfast", {"coordinates": c}) for c in ("jacobi", "democraticheliocentric", "whds", "barycentric")]
                                 + [("saba", {"type": "(10,6,4)"}), ("saba", {"type": "2"})])
         hyper = rng.random() < 0.6
         e = rng.uniform(1.1, 3.0) if hyper else rng.uniform(0.0, 0.8)
+        # edge of the hyperbolic family: near-parabolic orbits stepped through pericentre with steps so long that the
+        # Kepler solver leaves Newton's method for its bracketing fallback -- in BOTH directions of time
+        edge = hyper and rep % 3 == 0
+        if edge: e = rng.choice([1.001, 1.003, 1.01, 1.03])
         a = -1.0 if hyper else 1.0
         sim = rebound.Simulation()
         sim.add(m=1.0)
-        sim.add(m=rng.choice([0.0, 1e-3]), a=a, e=e, f=(-rng.uniform(0.5, 0.9 * math.acos(-1.0 / e)) if hyper else rng.uniform(0, 6.28)),
+        f0 = (-rng.uniform(0.5, 0.9 * math.acos(-1.0 / e)) if hyper else rng.uniform(0, 6.28))
+        if edge: f0 = -rng.uniform(0.0, 0.6)
+        sim.add(m=rng.choice([0.0, 1e-3]), a=a, e=e, f=f0,
                 omega=rng.uniform(0, 6), Omega=rng.uniform(0, 6), inc=rng.uniform(0, 1))
         sim.move_to_com()
         sim.integrator = integ
         if integ == "whfast": sim.ri_whfast.coordinates = opt["coordinates"]
         else: sim.ri_saba.type = opt["type"]
         dt = rng.choice([1, -1]) * rng.choice([0.05, 1.0, 5.0, 20.0] if hyper else [0.05, 0.7, 3.0, 11.0])
+        if edge: dt = rng.choice([1, -1]) * rng.choice([2 * math.pi, 20.0, 50.0])
         nsteps = rng.randint(2, 8) if abs(dt) > 0.5 else rng.randint(20, 200)
+        if edge: nsteps = rng.choice([1, 1, 2, 4])
         s0 = state(sim); sim.dt = dt
         for _ in range(nsteps): sim.step()
         sim.synchronize(); far = max(abs(x) for x in state(sim))
@@ -308,13 +316,13 @@ def run(ctx):
         sim.synchronize()
         s1 = state(sim)
         err = max(abs(p - q) for p, q in zip(s0, s1))
-        ctx.case(key=("twobody", integ, str(opt), hyper, abs(dt)))
+        ctx.case(key=("twobody", integ, str(opt), hyper, edge, abs(dt)))
         # rounding is amplified by the eccentricity and by (dt/period)^2 in the Kepler solver's argument doubling:
         # 1e-7 is ~100x above the worst error seen on the unchanged tree (calibrated over 40 seeds), far below a wrong branch (>1e-2)
         tol = 1e-7 * max(1.0, far)
         if not (err < tol):
             sym_fail.append({"integrator": integ, "options": opt, "N": 2, "dt": dt, "steps": nsteps, "relative_error": err,
-                             "a": a, "e": e, "state0": [x.hex() for x in s0], "masses": [p.m for p in sim.particles]})
+                             "a": a, "e": e, "edge": edge, "err": err, "tol": tol, "state0": [x.hex() for x in s0], "masses": [p.m for p in sim.particles]})
     if sym_fail:
         f = min(sym_fail, key=lambda d: d["steps"])
         ctx.violation("symmetric-roundtrip:%s:%s" % (f["integrator"], f["options"]), f, True,
